@@ -26,7 +26,19 @@ MANIFEST_TEXT = (
     "from a call with a larger or smaller matrix, pre-sized, vectors of other lengths, empty) a call never writes "
     "outside them and leaves exactly n values and n vectors of n entries, vector i = column i of LAPACK's result, "
     "hence right eigenvectors of A (nonsym_dynamic_outputs_fresh, nonsym_dynamic_vectors_right), and so does every "
-    "history of calls on the same containers (nonsym_dynamic_history).  Each run executes the real routines (float/double/long double, sizes 1..8, closed form "
+    "history of calls on the same containers (nonsym_dynamic_history).  Round four: the control logic is regenerated "
+    "as tables as well (Gen/C08T.lean) - eig0 (rows, cross-product pairs, lengths, the two updates of the running "
+    "maximum, result selection), orthoComp, eig1 (reduced matrix, the four normalisation sequences, result "
+    "coefficients), the index assembly of both branches of `if (r >= 0)`, the compare-and-swap network of the diagonal "
+    "special case, and the LAPACK call sites of fmatrixev.hh and dynmatrixev.hh (orientation of copy and copy-back, "
+    "jobz/uplo/jobvl/jobvr, lwork, the size of every buffer); the driver runs the interpreters of these tables and "
+    "ev3_control_translated proves them equal to the hand-written control flow for every scalar type, so that "
+    "ev3_vectors_translated and ev3_refines_specification (translated control flow -> abstract specification "
+    "IsEigenDecomposition3: ascending, trace, whole spectrum with multiplicity, orthonormal eigenvectors) speak about "
+    "the current source; lapack_sym_call / lapack_nonsym_call prove for every order that lwork and all buffers meet "
+    "the requirements of ?syev / ?geev and that right eigenvectors are requested exactly when asked for; "
+    "nonsym_spectrum_handover proves that what ?geev is handed has the characteristic polynomial of A "
+    "(charpoly_transpose for the fixed-size routine).  Each run executes the real routines (float/double/long double, sizes 1..8, closed form "
     "and LAPACK, scales 2^-498..2^498) on >= 24k generated matrices; a binary128 oracle decides order, trace, eigenvalue "
     "error, residual, unit norm, orthogonality, agreement of the two entry points and scale equivariance, and power "
     "sums / A v = lambda v for the non-symmetric routines; the same generic Lean model run over IEEE double must "
@@ -36,7 +48,10 @@ MANIFEST_TEXT = (
     "arguments are never fresh: the fixed-size routines are entered with NaN-filled and again with junk-filled outputs "
     "and must answer identically; the dynamic routine runs in histories of 2-5 calls (shrinking, growing, alternating "
     "orders, with and without vectors, interleaved caller pre-sizing) on one pair of containers, on real LAPACK "
-    "(oracle after every call) and through the recording fake (complete container contents compared with the model).")
+    "(oracle after every call) and through the recording fake (complete container contents compared with the model).  "
+    "The fake and the wrappers in front of the real ?syev/?geev write the whole announced workspace work[0..lwork), so "
+    "that a buffer shorter than announced is a sanitizer finding although LAPACK itself is not instrumented; the "
+    "hand-over answers carry the job characters and lwork of the call.")
 MANIFEST_NOTE = (
     "Partial by nature: floating-point accuracy (residual sizes, orthogonality tolerances) is measured by the harness "
     "on generated inputs, not proved; the Lean theorems are exact-arithmetic statements about the model (sqrt/acos/cos "
@@ -44,13 +59,18 @@ MANIFEST_NOTE = (
     "theorem for Hermitian matrices), tr_c08.py, the hand-written control flow of the model (tied by the double-precision "
     "differential run on all closed-form paths and by bit-exact runs on exact inputs), LAPACK/OpenBLAS, libquadmath as "
     "reference arithmetic, g++/ASan/UBSan, glibc libm (acos/cos/sqrt are the same functions in harness and driver).  "
+    "The tie of the translated control tables is exact: ev3_control_translated is an equality of functions, so a "
+    "change of the source that only flips the sign of an eigenvector (operands of a cross product exchanged) or decides "
+    "a tie differently (r > 0 for r >= 0) breaks the obligation although the property still holds; it is then "
+    "reported after the search as no-failing-input-found.  The diagonal special case is tied as a table equality "
+    "(ev3_diag_network_translated) and by running the interpreted tables in the driver.  "
     "Not modelled: LAPACK itself; the float and long double instantiations of the closed form are tied by the oracle and "
     "the exact cases only (the C++ float path mixes double literals into float arithmetic).  In the nearly diagonal case "
     "0 < p1 <= eps the 3x3 code returns the diagonal by design; there the statement is the residual bound, not exact "
     "roots.  Magnitudes exercised: 2^-498..2^498 (1e-150..1e150) for double and long double, 2^-120..2^120 for float, on "
     "all paths; this relies on the max-norm preconditioning of the 2x2 path (fixes/C08_ev2_scaling.patch).")
-TECHNIQUE = ("Lean 4 proof over a generic closed-form model (reals) + translator for formulas, thresholds and the 3x3 "
-             "determinant + differential correspondence (same model over IEEE double on all closed-form paths, bit-exact "
+TECHNIQUE = ("Lean 4 proof over a generic closed-form model (reals) + translator for formulas, thresholds, the 3x3 "
+             "determinant, control tables (eig0/orthoComp/eig1/assembly/diagonal network) and LAPACK call sites + differential correspondence (same model over IEEE double on all closed-form paths, bit-exact "
              "on exact inputs) + binary128 property oracle")
 TRANSLATORS = [tr_c08.translate]
 HARNESS = dict(
@@ -87,6 +107,8 @@ RULE = ("cases: sym = symmetric n x n (n=1..3 closed form, 4..8 LAPACK, and LAPA
         "| |v|^2 - 1 | <= 256 eps; trace within n*1024 eps |A|_2; orthogonality |v_i.v_j| <= tol |A| / |l_i - l_j| for "
         "eigenvalue pairs that coincide exactly (then <= tol) or differ by more than tol |A|; non-symmetric: "
         "sum lambda^m = tr A^m for m = 1..n within 1024 eps m n |A|_F^m, |A v - lambda v| <= 1024 eps |A|_F |v|.  "
+        "hand/handns/handnsf answers end with `call=job.. lwork=..` (what was passed to LAPACK), equal to the translated "
+        "call-site constants; the fake ?syev/?geev and the forwarding wrappers write work[0..lwork).  "
         "Observed maxima on the repaired tree over 10^6 cases: 64 eps (2x2), 14 eps (LAPACK), 1.15 sqrt(eps) (3x3).  "
         "distinct = distinct op lines; non-trivial = every case except 1x1 matrices and hand-over ops that never reach LAPACK")
 ASSUMPTIONS = [
@@ -106,6 +128,16 @@ ASSUMPTIONS = [
     "ev3_spectrum (exact roots) excludes by design the nearly diagonal case 0 < p1 <= eps of the scaled matrix, where the "
     "code returns the diagonal as an approximation; ev3_vectors_diag bounds the residual there by sqrt(eps) * max norm",
     "LAPACK (OpenBLAS) is trusted; a recording fake ?syev/?geev is interposed only for the hand-over cases",
+    "control tables (Gen/C08T.lean): the translator understands eig0 with exactly two conditional updates of the running "
+    "maximum, orthoComp with two branches normalising u by the length of a 2-vector, eig1 with the literal branch "
+    "skeleton (absM00 >= absM11, max(..) > 0, >= absM01) and sequences of three (compound) assignments, the assembly "
+    "`if (r >= 0) {eig0; eig1; crossProduct} else {..}`, a diagonal special case made of compare-and-swap steps, "
+    "stack arrays / std::make_unique<double[]> buffers allocated per call with integer size expressions in N/dim; "
+    "anything else (static or thread_local buffers, other statements) is a TranslateError = broken obligation",
+    "the interpreters in Model/C08T.lean are hand-written (core Lean); the line-protocol driver runs them, the theorems "
+    "are transferred through Proofs/C08Tie.lean (equalities by definitional unfolding)",
+    "LAPACK's interface requirements used in lapack_sym_call / lapack_nonsym_call (LWORK >= max(1,3N-1) for ?syev; "
+    "LWORK >= max(1,3N), >= 4N with eigenvectors, for ?geev) are taken from the LAPACK documentation",
     "output arguments: their content on entry is treated as part of the input (any content for the fixed-size outputs, "
     "any sizes up to 12 for the dynamic containers); aliasing an output with the input matrix is not exercised; the "
     "comparison of the NaN-prefilled with the junk-prefilled run assumes that two calls on the same matrix in the same "
